@@ -9,7 +9,7 @@ constexpr int INF_LEN = 40;     // "infinite" source: longer than the consumer e
 constexpr int READ_BOUND = 10;
 
 struct Src { uint8_t n; bool infinite; bool throws; uint8_t gate_mask; uint8_t gate_yields; };  // gate before yield k if bit k set
-struct Prog { bool with_arg; std::vector<Src> src; uint8_t consumer; uint8_t destroy_after; };    // consumer 0 blocking, 1 coroutine
+struct Prog { bool with_arg; std::vector<Src> src; uint8_t consumer; uint8_t destroy_after; uint8_t consumer_style = 0; };    // consumer_style 1: every second access calls the aggregate for a future    // consumer 0 blocking, 1 coroutine
 
 inline Prog decode(hz::Reader &r) {
     Prog p;
@@ -26,6 +26,7 @@ inline Prog decode(hz::Reader &r) {
     p.consumer = (uint8_t)r.mod(2);
     unsigned d = r.mod(8);
     p.destroy_after = d < 5 ? 255 : (uint8_t)(d - 4);
+    p.consumer_style = (uint8_t)r.mod(2);
     return p;
 }
 inline std::string describe(const Prog &p) {
@@ -40,6 +41,7 @@ inline std::string describe(const Prog &p) {
     }
     d << "; " << (p.consumer ? "coroutine consumer (co_await next())" : "blocking consumer (next()/value())");
     if (p.destroy_after != 255) d << "; destroyed after " << (unsigned)p.destroy_after << " values";
+    if (p.consumer_style) d << "; every second access calls the aggregate and reads the returned future";
     return d.s;
 }
 
@@ -83,7 +85,16 @@ void consume_blocking(G &agg, const Prog &p, Result &res, int bound) {
         if ((int)res.got.size() >= bound) { res.destroyed_early = true; return; }
         int a = (3 + 7 * call) % 10;
         bool more;
-        if constexpr (ARG) { res.args_sent.push_back(a); more = (bool)agg.next(a); } else more = (bool)agg.next();
+        if constexpr (ARG) res.args_sent.push_back(a);
+        if (p.consumer_style && (call & 1)) {
+            // call style: the aggregate is called and hands out a future (no value = end of the sequence)
+            try {
+                if constexpr (ARG) { auto f = agg(a); f.sync(); if (!f.has_value()) { res.end = -1; return; } res.got.push_back(f.value()); }
+                else { auto f = agg(); f.sync(); if (!f.has_value()) { res.end = -1; return; } res.got.push_back(f.value()); }
+            } catch (const val::TestExc &e) { res.end = 1000 + e.id; return; }
+            continue;
+        }
+        if constexpr (ARG) more = (bool)agg.next(a); else more = (bool)agg.next();
         if (!more) { res.end = -1; return; }
         try { res.got.push_back(agg.value()); }
         catch (const val::TestExc &e) { res.end = 1000 + e.id; return; }
@@ -96,7 +107,17 @@ cocls::async<void> consume_coro(G &agg, const Prog &p, Result &res, int bound) {
         if ((int)res.got.size() >= bound) { res.destroyed_early = true; co_return; }
         int &a = argslot[call & 1]; a = (3 + 7 * call) % 10;
         bool more;
-        if constexpr (ARG) { res.args_sent.push_back(a); more = co_await agg.next(a); } else { more = co_await agg.next(); }
+        if constexpr (ARG) res.args_sent.push_back(a);
+        if (p.consumer_style && (call & 1)) {
+            bool stop = false;
+            try {
+                if constexpr (ARG) { auto f = agg(a); bool hv = co_await f.has_value(); if (!hv) { res.end = -1; stop = true; } else res.got.push_back(f.value()); }
+                else { auto f = agg(); bool hv = co_await f.has_value(); if (!hv) { res.end = -1; stop = true; } else res.got.push_back(f.value()); }
+            } catch (const val::TestExc &e) { res.end = 1000 + e.id; stop = true; }
+            if (stop) co_return;
+            continue;
+        }
+        if constexpr (ARG) { more = co_await agg.next(a); } else { more = co_await agg.next(); }
         if (!more) { res.end = -1; co_return; }
         try { res.got.push_back(agg.value()); }
         catch (const val::TestExc &e) { res.end = 1000 + e.id; co_return; }
